@@ -131,7 +131,8 @@ def run_steps(tier, rng):
 # -----------------------------------------------------------------------------
 # async step functions
 # -----------------------------------------------------------------------------
-ASYNC = ("async_pass", "async_fail", "async_error", "async_pending", "async_skip", "async_kbi")
+ASYNC = ("async_pass", "async_fail", "async_error", "async_pending", "async_skip", "async_kbi",
+         "asynct_pass", "asynct_fail", "asynct_error", "asynct_pending", "asynct_skip")
 
 
 def run_async(tier, rng):
@@ -139,7 +140,7 @@ def run_async(tier, rng):
     top = 2 if tier == "quick" else 3
     i = 0
     for seq in _seqs(alphabet, 1, top):
-        if not any(o.startswith("async_") for o in seq):
+        if not any(o.startswith("async") for o in seq):
             continue
         flags = [FLAGS_5[i % 5]] if tier == "quick" else FLAGS_5
         i += 1
@@ -266,8 +267,10 @@ CHECKS = [
     BoundedCheck(
         "async-steps",
         bound={"quick": "sequences of length <= 2 over {async_pass, async_fail, async_error, async_pending, "
-                        "async_skip, async_kbi, pass, undefined} containing at least one async step (step functions "
-                        "decorated with behave.api.async_step.async_run_until_complete), shape own, one of 5 flag "
+                        "async_skip, async_kbi, asynct_pass, asynct_fail, asynct_error, asynct_pending, asynct_skip, pass, "
+                        "undefined} containing at least one async step (step functions decorated with "
+                        "behave.api.async_step.async_run_until_complete; asynct_* = with timeout=30, the "
+                        "asyncio.wait branch), shape own, one of 5 flag "
                         "sets rotating; exhaustive",
                "thorough": "as quick with length <= 3 (shape own or fbg+rbg alternating) x all 5 flag sets "
                            "{none, wip, dry-run, cafs, wip+cafs}"},
